@@ -67,7 +67,7 @@ def run_decoders(ctx):
         raise Broken("TLC emitted only %d defect cases" % len(r.printed))
     vlib.log("TLC %s: %d defect cases (%d states), %.0fs" % (cfg, len(r.printed), r.distinct, r.wall))
     res = ctx.work / "fuzz.json"
-    mut = 400 if ctx.quick else 20000
+    mut = 400 if ctx.quick else 15000
     p = vlib.run([drv, "fuzz", "-in", cases, "-out", res, "-seed", ctx.seed, "-mut", mut, "-inst", 1], timeout=3300)
     if p.returncode != 0:
         raise Broken("fuzzdrv fuzz failed or died (%d) -- an uncaught crash/exit of an entry point or a harness bug:\n%s" % (p.returncode, (p.stderr or p.stdout)[-3000:]))
